@@ -159,6 +159,19 @@ Qed.
 Lemma set_imports_twice f t t' : set_imports (set_imports f t) t' = set_imports f t'.
 Proof. reflexivity. Qed.
 
+Lemma file_render_ok fmt wfl f t raw :
+  file_raw f = Ok (t, raw) -> file_render fmt wfl f = (set_imports f t, emit fmt wfl (f_noformat f) raw).
+Proof. intros E. unfold file_render. rewrite E. reflexivity. Qed.
+Lemma file_render_panic fmt wfl f m : file_raw f = Panic m -> file_render fmt wfl f = (f, OPanic m).
+Proof. intros E. unfold file_render. rewrite E. reflexivity. Qed.
+Lemma crwf_ok fmt wfl c f t raw :
+  render (file_cfg f) false (f_imports f) c = Ok (t, raw) ->
+  code_render_with_file fmt wfl c f = (set_imports f t, emit fmt wfl false raw).
+Proof. intros E. unfold code_render_with_file. rewrite E. reflexivity. Qed.
+Lemma crwf_panic fmt wfl c f m :
+  render (file_cfg f) false (f_imports f) c = Panic m -> code_render_with_file fmt wfl c f = (f, OPanic m).
+Proof. intros E. unfold code_render_with_file. rewrite E. reflexivity. Qed.
+
 (* two consecutive identical render operations: equal observations, and the second leaves the
    File exactly as the first left it *)
 Theorem render_op_twice f o :
@@ -167,15 +180,21 @@ Theorem render_op_twice f o :
   fst (hstep (fst (hstep f o)) o) = fst (hstep f o).
 Proof.
   destruct o as [wf|c wf|c|p n|p n|m|s|b|ps]; try discriminate; intros _ Hc; cbn [hstep fst snd].
-  - unfold file_render at 2 3 5 6. destruct (file_raw f) as [[t raw]|m] eqn:E; cbn [fst snd].
-    + unfold file_render. rewrite (file_raw_twice f t raw Hc E). cbn [fst snd]. split; reflexivity.
-    + unfold file_render. rewrite E. split; reflexivity.
-  - unfold code_render_with_file at 2 3 5 6.
-    destruct (render (file_cfg f) false (f_imports f) c) as [[t raw]|m] eqn:E; cbn [fst snd].
-    + unfold code_render_with_file. change (file_cfg (set_imports f t)) with (file_cfg f).
-      change (f_imports (set_imports f t)) with t. rewrite (render_idempotent _ Hc _ _ _ _ _ E).
-      cbn [fst snd]. split; reflexivity.
-    + unfold code_render_with_file. rewrite E. split; reflexivity.
+  - destruct (file_raw f) as [[t raw]|m] eqn:E.
+    + rewrite (file_render_ok id_fmt (fun _ => wf) f t raw E). cbn [fst snd].
+      assert (E2 : file_raw (set_imports f t) = Ok (t, raw)) by (apply file_raw_twice; assumption).
+      rewrite (file_render_ok id_fmt (fun _ => wf) (set_imports f t) t raw E2). cbn [fst snd].
+      split; reflexivity.
+    + rewrite (file_render_panic id_fmt (fun _ => wf) f m E). cbn [fst snd].
+      rewrite (file_render_panic id_fmt (fun _ => wf) f m E). split; reflexivity.
+  - destruct (render (file_cfg f) false (f_imports f) c) as [[t raw]|m] eqn:E.
+    + rewrite (crwf_ok id_fmt (fun _ => wf) c f t raw E). cbn [fst snd].
+      assert (E2 : render (file_cfg (set_imports f t)) false (f_imports (set_imports f t)) c = Ok (t, raw))
+        by (exact (render_idempotent _ Hc _ _ _ _ _ E)).
+      rewrite (crwf_ok id_fmt (fun _ => wf) c (set_imports f t) t raw E2). cbn [fst snd].
+      split; reflexivity.
+    + rewrite (crwf_panic id_fmt (fun _ => wf) c f m E). cbn [fst snd].
+      rewrite (crwf_panic id_fmt (fun _ => wf) c f m E). split; reflexivity.
 Qed.
 
 (* inside a history: ... ; o ; o *)
@@ -187,8 +206,8 @@ Proof.
   assert (Happ : forall a b f, hobs f (a ++ b) = hobs f a ++ hobs (hfile f a) b).
   { induction a as [|x a IH]; intros b f; [reflexivity|]. cbn [app hobs hfile fold_left].
     fold (hfile (fst (hstep f x)) a). rewrite IH, app_assoc. reflexivity. }
-  rewrite !Happ. cbn [hobs]. rewrite !app_nil_r.
-  rewrite (proj1 (render_op_twice _ o Hr Hc)). reflexivity.
+  rewrite (Happ pre [o; o] f0), (Happ pre [o] f0). cbn [hobs]. rewrite !app_nil_r.
+  rewrite (proj1 (render_op_twice (hfile f0 pre) o Hr Hc)). rewrite app_assoc. reflexivity.
 Qed.
 
 (* hint and prefix calls touch nothing but hints and prefix *)
@@ -215,13 +234,13 @@ Theorem render_hints_render f mid wf :
   f_imports (fst (hstep (hfile f1 mid) (HRender wf))) = f_imports f1.
 Proof.
   intros Hc Hq Hm (t & raw & E). cbv zeta. cbn [hstep fst snd].
-  unfold file_render at 2 4 5 6. rewrite E. cbn [fst snd].
+  rewrite (file_render_ok id_fmt (fun _ => wf) f t raw E). cbn [fst snd].
   destruct (hint_ops_same mid (set_imports f t) Hm) as (Hs & Hi & Hn).
   assert (Hs' : same_file_but_hints f (hfile (set_imports f t) mid)).
   { destruct Hs as (A1 & A2 & A3 & A4 & A5 & A6 & A7). repeat split; assumption. }
   pose proof (file_raw_stable_later_hints f _ t raw Hc Hq E Hs' Hi) as E2.
-  unfold file_render. rewrite E2. cbn [fst snd]. rewrite Hn. cbn [set_imports f_noformat f_imports].
-  split; reflexivity.
+  rewrite (file_render_ok id_fmt (fun _ => wf) (hfile (set_imports f t) mid) t raw E2). cbn [fst snd].
+  rewrite Hn. split; reflexivity.
 Qed.
 
 (* ------------------------------------------------------------------ (iii) import lines *)
@@ -294,6 +313,25 @@ Proof.
   destruct (Hp p d Hd Hc) as [Hin Hu]. exists d. repeat split; assumption.
 Qed.
 
+(* a decision procedure for the Anon condition, for examples *)
+Definition anon_okb (f : file) (o : hop) : bool :=
+  match o with
+  | HAnon ps => forallb (fun p => match registered_name (f_imports f) p with None => true | Some _ => false end) ps
+  | _ => true
+  end.
+Fixpoint hist_okb (f : file) (ops : list hop) : bool :=
+  match ops with
+  | [] => true
+  | o :: r => anon_okb f o && hist_okb (fst (hstep f o)) r
+  end.
+Lemma hist_okb_sound ops : forall f, hist_okb f ops = true -> hist_ok anon_ok f ops.
+Proof.
+  induction ops as [|o ops IH]; intros f H; [exact I|]. cbn [hist_okb] in H. apply andb_true_iff in H.
+  destruct H as [Ho Hr]. split; [|apply IH; exact Hr].
+  destruct o; try exact I. cbn [anon_okb anon_ok] in *. rewrite forallb_forall in Ho.
+  intros p Hp. specialize (Ho p Hp). destruct (registered_name (f_imports f) p); [discriminate | reflexivity].
+Qed.
+
 (* ------------------------------------------------------------------ the interpreter *)
 (* one history, through Model/Exec.v's reader and interpreter (run_file_case on the line the
    harness would write) and through hobs: the same observations *)
@@ -319,5 +357,30 @@ Lemma history_example_agrees_with_run_ops :
     [(S "a.b/d", S "d"); (S "x/y", S "_"); (S "c.b/d", S "pp_d1")].
 Proof.
   split; [vm_compute; reflexivity|]. split; [|vm_compute; reflexivity].
-  cbn [example_ops hist_ok anon_ok]. repeat split. intros p [<-|[]]. vm_compute. reflexivity.
+  apply hist_okb_sound. vm_compute. reflexivity.
+Qed.
+
+(* ------------------------------------------------------------------ the three invariants together *)
+Theorem history_invariants f0 :
+  (* (i) names are monotone *)
+  (forall pre post p q, hist_ok anon_ok f0 (pre ++ post) ->
+     registered_name (f_imports (hfile f0 pre)) p = Some q ->
+     registered_name (f_imports (hfile f0 (pre ++ post))) p = Some q) /\
+  (* (ii) a render operation repeated at once: same observation, same File *)
+  (forall pre o, is_render o = true -> cfg_ok (file_cfg (hfile f0 pre)) ->
+     hobs f0 (pre ++ [o; o]) = hobs f0 (pre ++ [o]) ++ snd (hstep (hfile f0 pre) o) /\
+     hfile f0 (pre ++ [o; o]) = hfile f0 (pre ++ [o])) /\
+  (* (iii) a path registered at any point has its line in every later File.Render *)
+  (forall pre post t1 raw p q, hist_ok anon_ok f0 (pre ++ post) ->
+     registered_name (f_imports (hfile f0 pre)) p = Some q ->
+     file_raw (hfile f0 (pre ++ post)) = Ok (t1, raw) ->
+     let f := hfile f0 (pre ++ post) in
+     registered_name t1 p = Some q /\
+     exists d body, alookup p t1 = Some d /\ id_name d = q /\
+       raw = file_head f ++ render_imports t1 (f_cgo f) ++ body /\
+       exists a b, render_imports t1 (f_cgo f) = a ++ import_spec p d ++ [x0a] ++ b).
+Proof.
+  split; [exact (history_names_monotone f0)|]. split; [|exact (history_import_lines f0)].
+  intros pre o Hr Hc. split; [exact (history_render_twice f0 pre o Hr Hc)|].
+  rewrite !hfile_app. cbn [hfile fold_left]. exact (proj2 (render_op_twice (hfile f0 pre) o Hr Hc)).
 Qed.
